@@ -5,6 +5,7 @@ import (
 	"context"
 	"errors"
 	"fmt"
+	"io"
 	"time"
 
 	kafka "github.com/segmentio/kafka-go"
@@ -16,9 +17,9 @@ func init() { Scenarios["connerr"] = connerrScenario }
 // ConnErrCases is the size of the enumerated space of the connerr scenario:
 // operation x version configuration x fault x follow-up operation.
 const (
-	ceOps    = 11
+	ceOps    = 12
 	ceCfgs   = 3
-	ceFollow = 11
+	ceFollow = 12
 )
 
 var ceCodes = []int16{ErrNotLeaderForPartition, ErrLeaderNotAvailable, ErrRequestTimedOut, ErrOffsetOutOfRange, ErrUnknownTopicOrPartition, ErrNotEnoughReplicas, ErrTopicAuthorizationFailed, 999}
@@ -43,10 +44,10 @@ type ceEnv struct {
 	topic string
 }
 
-var ceOpNames = []string{"WriteMessages", "ReadBatch", "ReadFirstOffset", "ReadLastOffset", "ReadOffset", "ReadPartitions", "Brokers", "Controller", "ApiVersions", "CreateTopics", "DeleteTopics"}
+var ceOpNames = []string{"WriteMessages", "ReadBatch", "ReadFirstOffset", "ReadLastOffset", "ReadOffset", "ReadPartitions", "Brokers", "Controller", "ApiVersions", "CreateTopics", "DeleteTopics", "ReadBatch+Read(short buffer)"}
 
 // apiOfOp: which api key carries the operation's main exchange.
-var ceOpAPI = []int16{0, 1, 2, 2, 2, 3, 3, 3, 18, 19, 20}
+var ceOpAPI = []int16{0, 1, 2, 2, 2, 3, 3, 3, 18, 19, 20, 1}
 
 // doOp performs operation `op` and checks a successful result against the
 // model; it returns the error of the operation.
@@ -128,6 +129,26 @@ func (e *ceEnv) doOp(op int, tag string) (err error, wrong string) {
 		err = c.CreateTopics(kafka.TopicConfig{Topic: name, NumPartitions: 2, ReplicationFactor: 1})
 		if err == nil && e.cl.Topics[name] == nil {
 			wrong = "CreateTopics returned nil but the topic does not exist"
+		}
+	case 11:
+		// The documented non-fatal local error: a buffer too short for the
+		// value fails with io.ErrShortBuffer, the position is unchanged and the
+		// connection stays open (the rest of the fetch response is skipped).
+		// This is the ordinary outcome of this operation.
+		off, _ := c.Offset()
+		b := c.ReadBatch(1, 1<<20)
+		buf := make([]byte, 2)
+		n, rerr := b.Read(buf)
+		b.Close()
+		switch {
+		case rerr == nil:
+			wrong = fmt.Sprintf("Batch.Read into a 2-byte buffer returned n=%d and no error (the stored value has 5 bytes or more)", n)
+		case errors.Is(rerr, io.ErrShortBuffer):
+			if now, _ := c.Offset(); n != 2 || string(buf) != "ce" || now != off {
+				wrong = fmt.Sprintf("Batch.Read into a 2-byte buffer at offset %d: n=%d buf=%q, position afterwards %d", off, n, buf, now)
+			}
+		default:
+			err = rerr
 		}
 	case 10:
 		name := "del-" + tag
@@ -328,8 +349,16 @@ func connerrScenario(s *Sim, params map[string]string) {
 			// no such error field for this api/version: an ordinary exchange
 			if errA != nil {
 				s.Fail("C11", "R1-plain-exchange-failed", "%s: no fault applicable, yet the operation failed with %v", desc, errA)
+				return
 			}
 			s.Count("case-not-applicable")
+			// ... and the follow-up finds the connection aligned
+			errB, wrongB := env.doOp(follow, "b")
+			if wrongB != "" {
+				s.Fail("C11", "R3-wrong-value", "%s: follow-up after a fault-free exchange: %s", desc, wrongB)
+			} else if errB != nil {
+				s.Fail("C11", "R1-conn-unusable-after-plain-exchange", "%s: no fault applicable; the follow-up operation failed with %v", desc, errB)
+			}
 			return
 		}
 		if framing == "" {
